@@ -62,6 +62,7 @@ PAGES = {
     "preTag": ("parse", "<pre>\n* not list\n {{T1|a}}", {}),
     "manyCalls": ("expand", "".join("{{T1|%d}}" % i for i in range(130)), {}),
     "templateLoop": ("expand", "x{{A}}y{{T1|{{A}}}}", {}),
+    "templateNowiki": ("expand", "[[l|t]]{{Nw}}{{T1|a}}{{Nw}}", {}),
     "sectionError": ("section-expand", "{{#invoke:S|err}}{{A}}", {}),
     "luaGlobal": ("expand", "{{#invoke:S|global}}{{#invoke:S|global}}", {}),
     "luaString": ("expand", "{{#invoke:S|str}}{{#invoke:S|str}}", {}),
@@ -92,6 +93,7 @@ def populate(path):
     luastub.add_module(ctx, "Data", MODULE_DATA)
     ctx.add_page("Module:J.json", 828, body='{"n": 1, "list": ["noun"]}', model="json")
     ctx.add_page("Template:T1", 10, body="({{{1}}})")
+    ctx.add_page("Template:Nw", 10, body="n<nowiki>[[q]] {{T1|z}}</nowiki>w<!-- c -->")
     ctx.add_page("Template:A", 10, body="{{B}}")
     ctx.add_page("Template:B", 10, body="[{{A}}]")
     ctx.db_conn.commit()
